@@ -224,14 +224,34 @@ def link_algebra(repo: Repo) -> RuleRun:
     rinit = repo.func("optimize.links.RotationLink.__init__")
     cp = any(isinstance(n, ast.Assign) and ast.unparse(n.targets[0]) == "self.orig_follower_pos" and isinstance(n.value, ast.Call) and attr_chain(n.value.func) in ("np.copy", "np.array", "numpy.copy", "copy.copy", "copy.deepcopy") for n in walk_shallow(rinit.node))
     r.check(cp, rinit, "original follower stored as a copy", "RotationLink stores the original follower without copying it: update() overwrites it through the alias", rinit.node, key="rotation:copy")
-    # SymmetryLink
-    gf = repo.func("optimize.links.SymmetryLink._get_follower")
-    rets = [n for n in walk_shallow(gf.node) if isinstance(n, ast.Return)]
-    args = [ast.unparse(a) for a in rets[0].value.args] if rets and isinstance(rets[0].value, ast.Call) else []
-    r.check(args == ["self.leader", "self.normal", "self.origin"] and (attr_chain(rets[0].value.func) or "").endswith("mirror"), gf, "mirror(leader, normal, origin)", f"SymmetryLink mirrors with arguments {args}; expected (self.leader, self.normal, self.origin)", gf.node, key="symmetry:args")
+    # SymmetryLink: the follower is the mirror image of the CURRENT leader about the link's own plane. Constructor and transform()
+    # are run in the linear-form domain of C09 (X = leader, O = origin of the plane, T = the reflection): the result must be
+    # T(X - O) + O, and every reflection matrix must be built from a NORMALISED normal - however the link caches or inlines it
+    from . import c09
+
     st = repo.func("optimize.links.SymmetryLink.transform")
-    ok = any(isinstance(n, ast.Return) and isinstance(n.value, ast.Call) and attr_chain(n.value.func) in ("self._get_follower",) for n in walk_shallow(st.node)) or "mirror" in ast.unparse(st.node)
-    r.check(ok, st, "transform() = mirror image of the leader", "SymmetryLink.transform does not return the mirror image of the leader", st.node, key="symmetry:transform")
+    sinit = repo.func("optimize.links.SymmetryLink.__init__")
+    matrix_args = []
+
+    def shook(ev, call: ast.Call, name, matrix_args=matrix_args):
+        if (name or "").split(".")[-1] == "mirror_matrix" and call.args:
+            matrix_args.append(ev.eval(call.args[0]))
+        return c09.affine_hook(ev, call, name)
+
+    slink = Obj("link", cls=repo.cls("optimize.links.SymmetryLink"))
+    ev_s = Evaluator(repo=repo, module=st.module, call_hook=shook)
+    ev_s.binop_hook = c09.lin_binop
+    ev_s.extra_types = (c09.Lin,)
+    try:
+        ev_s.call_funcinfo(sinit, [slink, c09.Lin(0, 0, 1, 0), Sym("zero"), Sym("NORMAL"), c09.Lin(0, 0, 0, 1)])
+        slink.set("leader", c09.Lin(0, 0, 1, 0))
+        res = ev_s.call_funcinfo(st, [slink])
+    except Raised as err:
+        raise AnalysisError(f"SymmetryLink raised {err.exc_name} on the linear-form model") from err
+    except NotEvaluable as err:
+        raise AnalysisError(f"SymmetryLink not evaluable over the linear-form domain: {err}") from err
+    r.check(res == c09.EXPECTED, st, f"transform() = {res}", f"SymmetryLink.transform computes {res} for leader X and plane origin O; the mirror image about a plane through O is T(X - O) + O (an origin that is not added back, or subtracted twice, shows only for planes that miss the global origin)", st.node, key="symmetry:transform")
+    r.check(bool(matrix_args) and all(isinstance(a_, Sym) and a_.name == "unit" for a_ in matrix_args), st, "the reflection is built from a normalised normal", f"SymmetryLink builds its reflection matrix from {matrix_args}: mirror_matrix() is a reflection only for a UNIT normal (f.mirror normalises; a cached or inlined matrix must do so too)", st.node, key="symmetry:unit-normal")
     # GridBase.update sets the leader before updating and reads the follower afterwards (evaluated under C13.WHO-WRITES-POINTS)
     return r
 
